@@ -7,6 +7,8 @@ URI_POOL = [
     "http://zv.test/schemas/alpha", "http://zv.test/schemas/bravo", "urn:zv:charlie", "http://zv.test/2024/delta",
     "http://zv.test/ns/echo/", "https://example.org/foxtrot", "http://zv.test/golf-types", "urn:zv:data:hotel",
     "http://zv.test/india.v2", "http://zv.test/schemas/juliet", "http://zv.test/kilo", "http://zv.test/schemas/lima",
+    # last segments that start with a digit but hold letters, too (what is made of them must still be a prefix and an identifier)
+    "http://zv.test/3dmodel", "http://docs.zv.test/wss/2004/01/mike-200401-wss-secext-1.0.xsd",
 ]
 # adversarial pool (C10): equal last segments, equal 3-letter abbreviations, dots, dashes, trailing slashes, URNs
 URI_POOL_ADVERSARIAL = [
@@ -25,6 +27,8 @@ URI_POOL_ADVERSARIAL = [
     "http://zv.test/a/b", "urn:zv:Case", "urn:zv:case", "http://zv.test/ns/../ns/orders",
     # abbreviations that would start with "xml" (a prefix reserved by XML itself)
     "http://zv.test/xml", "http://zv.test/ns/xmlns", "urn:zv:XML-types", "http://zv.test/xmlschema/ext",
+    # digit-led last segments with letters in them
+    "http://zv.test/3dmodel", "http://zv.test/x/3dm", "http://docs.zv.test/wss/2004/01/mike-200401-wss-secext-1.0.xsd", "urn:zv:2fa", "http://zv.test/9-lives",
 ]
 # URIs that zeep's three-letter abbreviation scheme maps to the same (or a confusable) abbreviation
 COLLISION_GROUPS = [
@@ -44,6 +48,7 @@ COLLISION_GROUPS = [
     ["http://zv.test/sch", "https://zv.test/sch", "http://zv.test:80/sch", "http://ZV.test/sch"],
     ["http://zv.test/frag", "http://zv.test/frag#"],
     ["http://zv.test/xml", "http://zv.test/ns/xmlns", "urn:zv:XML-types", "http://zv.test/xmlschema/ext"],
+    ["http://zv.test/3dmodel", "http://zv.test/x/3dm"],
     ["http://zv.test/a%2Fb", "http://zv.test/a/b", "http://zv.test/a%20b"],
 ]
 PREFIX_POOL = ["tns", "t", "ns1", "ns2", "a", "b", "m", "typ", "msg", "q", "p", "x", "s1", "core", "base"]
@@ -352,6 +357,9 @@ class Gen:
             k = r.random()
             if k < 0.3:
                 f.enumeration = sorted(set(r.choice(["A", "b", "North East", "x-1", "é", "Q&A", "10", "None", "", '2.5"', "C:\\dir"]) for _ in range(r.randrange(1, 6))))
+                if f.enumeration == [""]:
+                    # the empty string as the *only* value leaves nothing that yaserde 0.12 can read back (empty text, DESIGN §10)
+                    f.enumeration = ["", "A"]
                 import random as _random
                 if len(f.enumeration) >= 2 and _random.Random("enum-dup:" + nm.xml).random() < 0.3:
                     # the same value listed twice (legal, and harmless for the value space)
@@ -372,7 +380,7 @@ class Gen:
                         if getattr(bf, key) is not None:
                             setattr(inherited, key, getattr(bf, key))
                 if inherited.enumeration is not None:
-                    f.enumeration = inherited.enumeration[:1] if f.enumeration is not None else None
+                    f.enumeration = ([x for x in inherited.enumeration if x != ""][:1] or inherited.enumeration[:1]) if f.enumeration is not None else None
                     f.length = f.min_length = f.max_length = None
                 if inherited.length is not None or inherited.min_length is not None or inherited.max_length is not None:
                     f.length = f.min_length = f.max_length = None
@@ -503,6 +511,14 @@ class Gen:
         ss = SchemaSet(self.files, self.files[0].filename, None, self.features)
         if cfg["wsdl"]:
             self.make_wsdl(ss)
+        import random as _random
+        style = _random.Random("xml-style:" + "|".join(c.name.xml for f in self.files for c in f.components))
+        if style.random() < cfg.get("p_xsd_as_default_ns", 0.15):
+            # XML Schema itself as the default namespace of the schema elements (<schema xmlns="http://www.w3.org/2001/XMLSchema">,
+            # type="string"), and for a WSDL the WSDL namespace as the default namespace of the definitions around them
+            ss.xsd_as_default = True
+            ss.wsdl_as_default = style.random() < 0.7
+            self.features.add("xml-schema-namespace-as-default")
         return ss
 
     def add_twin(self):
